@@ -1,16 +1,57 @@
-//! Suite C11 (stub — replaced when the property's harness is built).
+//! Suite C11: OTAA join establishes exactly the session the JoinAccept defines.
 #![allow(dead_code, unused_imports)]
+use crate::mac::*;
+use crate::macgen::*;
+use crate::macsuites::*;
 use crate::util::*;
 
-pub fn eval(_op: &str) -> String {
-    "bad-op".into()
+pub fn eval(op: &str) -> String {
+    let outs = run_history(op);
+    format!("{} ## oracle={}", outs.join(" ; "), oracle_c11(op, &outs))
 }
 
 pub fn expand(_op: &str) -> Vec<String> {
     vec![]
 }
 
-pub fn run(_tier: &str, _seed: u64, dir: &str) {
-    let sink = Sink::new(dir);
-    sink.finish(dir, "stub", false, serde_json::json!({}));
+pub fn run(tier: &str, seed: u64, dir: &str) {
+    let mut rng = Rng::new(seed);
+    let mut sink = Sink::new(dir);
+    let thorough = tier == "thorough";
+    for region in REGIONS {
+        let (lo, hi) = band(region);
+        // every DLSettings byte x RxDelay classes x CFList classes
+        for dls in 0..=255u8 {
+            for (k, rxd) in [0u8, 1, 2, 15].iter().enumerate() {
+                if !thorough && (dls as usize + k) % 4 != 0 {
+                    continue;
+                }
+                let cfs = [
+                    CfDesc::None,
+                    CfDesc::Dynamic([lo + 300_000, 0, hi + 100, lo - 100, hi]),
+                    CfDesc::Fixed([0xff, 0, 0, 0, 0, 0, 0, 0, 0x01]),
+                    CfDesc::Rfu(7, [0x55; 15]),
+                ];
+                let cf = &cfs[(dls as usize + k) % 4];
+                let mut h = Hist::new("C11", region, 20, 0, rng.next() & 0xffff, &[], None);
+                h.go_live();
+                h.snap().ev("otaa");
+                let acc = build_join_accept(&ROOT_KEY, 0x0100_0000 + dls as u32, dls, *rxd, cf);
+                let w = if dls % 2 == 0 { "rx1" } else { "rx2" };
+                h.rx_bytes(w, 0, &acc, None).snap().send(1, false, &[1]).timeout().snap();
+                let op = h.done();
+                sink.case(&op, &eval(&op), "dlsettings-sweep", true);
+            }
+        }
+        let n = if thorough { 2000 } else { 120 };
+        for _ in 0..n {
+            let mut o = Opts::default();
+            o.otaa_pct = 100;
+            o.steps = 5;
+            o.snaps = true;
+            let op = gen_history("C11", &mut rng, region, &o);
+            sink.case(&op, &eval(&op), "join-history", true);
+        }
+    }
+    sink.finish(dir, "per region: all 256 DLSettings bytes x RxDelay {0,1,2,15} x CFList {none, type 0 with in-band/zero/out-of-band frequencies, type 1 mask, RFU type}, arriving in RX1 or RX2 (full grid in thorough, a quarter in quick); random histories of failed attempts, wrong-key accepts and re-joins from a joined state. The JoinRequest is checked against the §6.2.4 layout and its MIC, the session keys against the §6.2.5 derivation. Non-trivial = every case.", false, serde_json::json!({}));
 }
